@@ -198,8 +198,8 @@ static void c16_run(void) {
 	}
 	if (!C.ds) h_viol("create", "dispatch_source_create failed");
 	sim_watch(C.ds, 120); sim_watch(*(void **)((char *)C.ds + 88), 96);
-	dispatch_source_set_event_handler_f(C.ds, event_handler);
-	if (C.cmode != CM_AND_WAIT) dispatch_source_set_cancel_handler_f(C.ds, cancel_handler);
+	if (g_chance(1, 2)) dispatch_source_set_event_handler(C.ds, ^{ event_handler(NULL); }); else dispatch_source_set_event_handler_f(C.ds, event_handler);
+	if (C.cmode != CM_AND_WAIT) { if (g_chance(1, 2)) dispatch_source_set_cancel_handler(C.ds, ^{ cancel_handler(NULL); }); else dispatch_source_set_cancel_handler_f(C.ds, cancel_handler); }
 	if (C.sibling) {
 		if (C.stype == ST_SIGNAL) C.sib = dispatch_source_create(DISPATCH_SOURCE_TYPE_SIGNAL, C16_SIGNO, 0, dispatch_get_global_queue(0, 0));
 		else C.sib = dispatch_source_create(C.stype == ST_READ ? DISPATCH_SOURCE_TYPE_WRITE : DISPATCH_SOURCE_TYPE_READ, (uintptr_t)C.mon_fd, 0, dispatch_get_global_queue(0, 0));
